@@ -34,3 +34,17 @@ func (obj Undefined) Hierarchy() []Symbol {
 func (obj Undefined) Eval(s *Scope, depth int) Object {
 	panic(UndefinedFunctionNew(s, depth, obj, "Function %s is not defined.", obj))
 }
+
+// forward replaces the Undefined form of a placeholder lambda once the
+// function is defined with Package.Define. The placeholder collects the
+// arguments of the call with a &rest parameter named args.
+type forward struct {
+	Undefined
+	create func(args List) Object
+}
+
+// Eval calls the function with the arguments given to the placeholder.
+func (fw *forward) Eval(s *Scope, depth int) Object {
+	args, _ := s.Get(Symbol("args")).(List)
+	return fw.create(nil).(Funky).Caller().Call(s, args, depth)
+}
